@@ -173,6 +173,19 @@ Theorem C20_reopen_reports_same : forall E ops, env_wf E ->
 Proof. exact reopen_run. Qed.
 Print Assumptions C20_reopen_reports_same.
 
+(** Opening does not depend on the order in which the stored schema records are listed
+    (the drivers list the [schemas] group by record name): loading any permutation of the
+    records reports the same JSON Schema, parent chain, provider and packages. *)
+Theorem C20_load_order_irrelevant : forall E st sch, env_wf E -> Desc E st ->
+  Permutation.Permutation (schemas st) sch ->
+  pkgs (load (with_schemas st sch)) = pkgs (load st) /\
+  forall r, khas r (schemas st) = true ->
+    rep_json (load (with_schemas st sch)) r = rep_json (load st) r /\
+    rep_parents (load (with_schemas st sch)) r = rep_parents (load st) r /\
+    rep_provider (load (with_schemas st sch)) r = rep_provider (load st) r.
+Proof. exact load_order_irrelevant. Qed.
+Print Assumptions C20_load_order_irrelevant.
+
 (** The pinned tree: [schemas.get(ref)] is [None] even for a schema in use (the demanded
     [rep_get] is [schemas[ref]]). *)
 Theorem C20_get_pinned_refuted : exists st r,
